@@ -312,6 +312,38 @@ func ruleEpcShared(c *Ctx) {
 			}
 		})
 	})
+	// a structure built in one literal has no field stores: the literal is its construction
+	c.P.funcDecls(func(pk *packages.Package, fd *ast.FuncDecl) {
+		ast.Inspect(fd.Body, func(n ast.Node) bool {
+			if cl, ok := n.(*ast.CompositeLit); ok && len(cl.Elts) > 0 {
+				if nt := namedOf(pk.TypesInfo.TypeOf(cl)); nt != nil && sharedTypes[nt.Obj().Name()] {
+					fn := pkgShort(pk.Types) + "." + funcName(fd)
+					counts[nt.Obj().Name()]++
+					// the arrays handed to it are new as well
+					borrowed := ""
+					for _, el := range cl.Elts {
+						kv, ok := el.(*ast.KeyValueExpr)
+						if !ok {
+							continue
+						}
+						if _, isSlice := pk.TypesInfo.TypeOf(kv.Value).Underlying().(*types.Slice); !isSlice {
+							continue
+						}
+						if w := backingOrigin(c.P, pk, fd, kv.Value, "", 0); w != "" {
+							borrowed = types.ExprString(kv.Key) + " from " + w
+						}
+					}
+					key := fn + ":" + nt.Obj().Name() + "{…}"
+					if borrowed != "" {
+						c.bad(key, cl.Pos(), "the new %s takes the memory of its %s: a structure that is shared between an EpochsContext and its clones must own its arrays", nt.Obj().Name(), borrowed)
+					} else {
+						c.ok(key, cl.Pos(), "built in one literal from values made in this function")
+					}
+				}
+			}
+			return true
+		})
+	})
 	for _, t := range []string{"ShufflingEpoch", "EffectiveBalances"} {
 		if counts[t] == 0 {
 			anchorFail("no constructor stores found for %s", t)
